@@ -10,6 +10,10 @@ var verifSched atomic.Value // func(name string, obj interface{})
 // (build tag verif only). Points: "consumer.close.checked" — a TCP or UDP
 // player's consumer is about to be closed by this caller (it is past the
 // already-closed test); obj is the consumer's session (*Session).
+// "play.before-answer" — a player (TCP, ws, UDP or multicast) has been attached
+// to its stream and the 200 to its PLAY is about to be written; obj is the
+// session. Whatever reaches the client while a callback sits here was sent
+// before PLAY was answered.
 func VerifSetSched(f func(name string, obj interface{})) {
 	if f == nil {
 		f = func(string, interface{}) {}
